@@ -201,45 +201,63 @@ variable {α : Type}
 
 inductive JoinHow where | left | right | inner | outer deriving Repr, DecidableEq
 
+/-- a base column read at optional positions (`na` where there is none) -/
+def takeBase (v : List α) (idx : List (Option Nat)) (dflt : α) : List α :=
+  idx.map fun o => match o with | some i => v.getD i dflt | none => dflt
+
+/-- optional positions as a pandas indexer (`-1` = no row) -/
+def optIndexer (idx : List (Option Nat)) : List Int :=
+  idx.map fun o => match o with | some i => (i : Int) | none => -1
+
+def takeColData (idx : List (Option Nat)) (dflt : α) (p : String × ColData α) : R (String × ColData α) :=
+  match p.2 with
+  | .base t v => pure (p.1, ColData.base t (takeBase v idx dflt))
+  | .nest c => do
+    let c' ← NArr.take c (optIndexer idx) true none
+    pure (p.1, ColData.nest c')
+
 def NFrame.takeRows (F : NFrame α) (idx : List (Option Nat)) (dflt : α) (newIndex : List Label) : R (NFrame α) := do
-  let cols ← F.cols.mapM fun (n, d) => match d with
-    | .base t v => pure (n, ColData.base t (idx.map fun o => match o with | some i => v.getD i dflt | none => dflt))
-    | .nest c => do
-      let c' ← NArr.take c (idx.map fun o => match o with | some i => (i : Int) | none => -1) true none
-      pure (n, ColData.nest c')
+  let cols ← F.cols.mapM (takeColData idx dflt)
   pure { index := newIndex, cols := cols }
 
 def dedupLabels : List Label → List Label
   | [] => []
   | l :: ls => l :: (dedupLabels ls).filter (· != l)
 
+/-- where label `l` sits in the packed index (`Index.get_indexer`), `-1` when it has no row -/
+def labelPos (keys : List Label) (l : Label) : Int :=
+  match keys.findIdx? (· == l) with
+  | some p => (p : Int)
+  | none => -1
+
+/-- left rows carrying label `l`, ascending -/
+def leftRowsOf (left : List Label) (l : Label) : List Nat :=
+  (List.range left.length).filter fun i => left.getD i (.int 0) == l
+
+/-- one output row of a join per left row with the label, or one row without a left side -/
+def joinRowsOf (left keys : List Label) (l : Label) : List (Option Nat × Int × Label) :=
+  match leftRowsOf left l with
+  | [] => [(none, labelPos keys l, l)]
+  | is => is.map fun i => (some i, labelPos keys l, l)
+
+/-- the row plan of `DataFrame.join(how)` on the index: (left row or none, position in the packed
+    index or -1, label) for every output row -/
+def joinPlan (how : JoinHow) (left keys : List Label) : List (Option Nat × Int × Label) :=
+  match how with
+  | .left => (List.range left.length).map fun i => (some i, labelPos keys (left.getD i (.int 0)), left.getD i (.int 0))
+  | .inner => ((List.range left.length).filter fun i => labelPos keys (left.getD i (.int 0)) ≥ 0).map fun i =>
+      (some i, labelPos keys (left.getD i (.int 0)), left.getD i (.int 0))
+  | .right => keys.flatMap (joinRowsOf left keys)
+  | .outer => ((dedupLabels (left ++ keys)).mergeSort Label.le).flatMap (joinRowsOf left keys)
+
 /-- `add_nested` (core.py:417-460) joining on the index: `pack` then `DataFrame.join(how)`.
     `na` is the cell pandas writes into base columns of rows that exist only on the right. -/
 def NFrame.addNested [Inhabited α] (F : NFrame α) (flat : FlatDF α) (name : String) (how : JoinHow) (na : α) :
     R (NFrame α) := do
   let packed ← packFlat flat
-  let pos (l : Label) : Int := match packed.index.findIdx? (· == l) with | some p => (p : Int) | none => -1
-  let leftRowsOf (l : Label) : List Nat := (List.range F.index.length).filter fun i => F.index.getD i (.int 0) == l
-  -- (left row or none, right label position or -1, label)
-  let plan : List (Option Nat × Int × Label) :=
-    match how with
-    | .left => (List.range F.index.length).map fun i =>
-        let l := F.index.getD i (.int 0); (some i, pos l, l)
-    | .inner => ((List.range F.index.length).filter fun i => pos (F.index.getD i (.int 0)) ≥ 0).map fun i =>
-        let l := F.index.getD i (.int 0); (some i, pos l, l)
-    | .right => packed.index.flatMap fun l =>
-        match leftRowsOf l with
-        | [] => [(none, pos l, l)]
-        | is => is.map fun i => (some i, pos l, l)
-    | .outer =>
-      let keys := (dedupLabels (F.index ++ packed.index)).mergeSort Label.le
-      keys.flatMap fun l =>
-        match leftRowsOf l with
-        | [] => [(none, pos l, l)]
-        | is => is.map fun i => (some i, pos l, l)
+  let plan := joinPlan how F.index packed.index
   let F' ← F.takeRows (plan.map (·.1)) na (plan.map (·.2.2))
-  let indexer := plan.map (·.2.1)
-  let col ← NArr.take packed.col indexer true none
+  let col ← NArr.take packed.col (plan.map (·.2.1)) true none
   pure (F'.setCol name (.nest col))
 
 /-- `from_flat` (core.py:462-560) without `on`: base rows are the first occurrence of every
